@@ -2,6 +2,7 @@
 import TornadoModel.C29.Lemmas
 import TornadoModel.C29.RunLevel
 import TornadoModel.C29.RunCE
+import TornadoModel.C29.WireCL
 namespace TornadoModel.C29
 open TornadoModel.C02
 open TornadoModel.C06 (Str normalize)
@@ -186,6 +187,30 @@ theorem decoded_per_content_encoding (gz : Gz) (gunzip : Bytes → Option Bytes)
 
 example : ∀ op ∈ [Op.setHeader nCT [116, 101, 120, 116, 47, 120], .addHeader nVary [88], .write [97], .flush,
     .clearHeader nCT, .write [98], .finish (some [99])], opClean29 op = true := by decide
+
+/-- **wire_content_length_is_encoded_length** (run level, on the wire): in every clean run (as in
+    `run_transparent`; no contract needed) the strict client reads exactly one response, nothing left over, and
+    **every `Content-Length` header it carries is the decimal length of the body on the wire** — which, when the
+    transform compressed, is the concatenation of the transform's outputs (the *encoded* body), not what the
+    handler wrote. -/
+theorem wire_content_length_is_encoded_length (gz : Gz) (rq : Req) (ae : Option Str) (hrq : reqOK rq = true)
+    (hm : rq.method ≠ Method.head) (hinm : rq.inmMatch = false) (prog : List Op)
+    (hops : ∀ op ∈ prog, opClean op = true) :
+    ∃ hs d body,
+      C02.Spec.clientParse (rq.method == .head) (wire (run gz rq ae prog).base.conn) (run gz rq ae prog).base.conn.closed
+        = .ok (⟨headStatus 200 prog, reason (headStatus 200 prog), hs, body, d⟩, []) ∧
+      (∀ v ∈ C02.Spec.lookup C02.Spec.lcCL hs, parseDec v = some body.length) ∧
+      ((run gz rq ae prog).t.gzipping = true → body = (Spec.outputs gz (run gz rq ae prog).t.hist).flatten) := by
+  obtain ⟨hs, d, body, h1, h2, _⟩ := run_clean29 gz rq ae hrq hm hinm prog hops
+  have hm' : (rq.method == Method.head) = false := by
+    cases h : rq.method with
+    | head => exact absurd h hm
+    | get => rfl
+    | post => rfl
+  refine ⟨hs, d, body, h1, ?_, fun hg => (h2 hg).2.1⟩
+  exact clientParse_cl _ _ _ _ _ h1 (by
+    show (_ || noBodyStatus (headStatus 200 prog)) = false
+    rw [hm', headStatus_nb prog 200 (by decide) hops]; rfl)
 
 /-- **run_feed_is_writes** (no contract needed): in the same runs the transform is fed exactly the program's
     writes, as flushes followed by exactly one close, and the response body is the concatenation of what it emitted;
